@@ -34,7 +34,8 @@ LEARNER   {"kind":"random","seed":s} {"kind":"epsilon","epsilon":e,"seed":s} {"k
           {"kind":"history","tag":t,"fmt":"a|ap|pmf|ap_kw|pmf_kw","score":bool,"info":bool,"batch":bool}
               (batch: this instance takes batched calls natively - fmt ap/pmf only; otherwise it raises on a batch and
                SafeLearner falls back to row-by-row calls. Built-in bandit learners never take batches.)
-          {"kind":"faulty","inner":LEARNER,"where":"params|predict|learn","at":j,"msg":m}
+          {"kind":"faulty","inner":LEARNER,"where":"params|predict|learn","at":j,"msg":m,"batches":bool}
+              (batches: batched calls are passed to the batch-capable inner learner and counted; one-shot fault)
 EVALUATOR {"kind":"seq","record":[..],"learn":..,"eval":..,"seed":..}
           {"kind":"rejection","record":[..],"seed":..,"cpct":..}
           {"kind":"fn","name":"rows"|"summary"}
@@ -81,7 +82,7 @@ def build_learner(d, listed=None):
         for r in d.get("base_refs", []):
             base.append(listed[r % len(listed)])
         return CorralLearner(base, seed=d.get("seed", 1))
-    if k == "faulty":  return comps.FaultyLearner(build_learner(d["inner"], listed), d["where"], d.get("at", 0), d["msg"])
+    if k == "faulty":  return comps.FaultyLearner(build_learner(d["inner"], listed), d["where"], d.get("at", 0), d["msg"], d.get("batches", False))
     raise ValueError(f"unknown learner kind {k!r}")
 
 def build_learners(descs):
@@ -752,13 +753,18 @@ def has_ref_corral(desc):
 # =============================================================================================== fault plans
 import copy as _copy
 
-FAULT_KINDS = ("lrn_predict", "lrn_learn", "lrn_params", "env_read", "env_params", "val_rows")
+FAULT_KINDS = ("lrn_predict", "lrn_learn", "lrn_params", "env_read", "env_params", "val_rows", "lrn_predict_b", "lrn_learn_b")
+
+def batch_capable(l):
+    return l["kind"] == "history" and l.get("batch", False) and l.get("fmt") in ("ap", "pmf")
 
 def apply_fault(desc, fault):
     """Return a descriptor in which one component raises comps_exp.InjectedFault(fault['msg']).
 
     fault = {"kind": one of FAULT_KINDS, "target": int (index, taken modulo), "at": j, "msg": text}
       lrn_predict / lrn_learn : the target learner raises at its j-th predict / learn call (per evaluated copy)
+      lrn_predict_b / lrn_learn_b : same inside a batch-CAPABLE HistoryLearner (batched calls counted and passed on, j >= 1,
+                                one-shot: an immediate retry would succeed); falls back to the plain kind otherwise
       lrn_params              : building the target learner's params raises
       env_read                : the target flat environment raises when its j-th interaction is requested
       env_params              : building the target flat environment's params raises
@@ -769,6 +775,13 @@ def apply_fault(desc, fault):
     kind, msg, at = fault["kind"], fault["msg"], fault.get("at", 0)
     if kind == "val_rows" and not d.get("evaluators"):
         kind = "lrn_predict"
+    if kind in ("lrn_predict_b", "lrn_learn_b"):
+        # fault inside a batch-capable learner at its j-th call (j >= 1: the first batched call is SafeLearner's probe), one-shot
+        i = fault["target"] % len(d["learners"])
+        if batch_capable(d["learners"][i]):
+            d["learners"][i] = {"kind": "faulty", "inner": d["learners"][i], "where": kind[4:-2], "at": max(1, at), "msg": msg, "batches": True}
+            return d
+        kind = kind[:-2]
     if kind.startswith("lrn_"):
         i = fault["target"] % len(d["learners"])
         d["learners"][i] = {"kind": "faulty", "inner": d["learners"][i], "where": kind[4:], "at": at, "msg": msg}
